@@ -606,8 +606,9 @@ xds_separator(vbi_decoder *vbi, uint8_t *buf)
 		if (sp) {
 			sp->count = 0;
 			sp->chksum = 0;
-			sp = NULL;
 		}
+
+		cc->curr_sp = NULL;
 
 		return;
 	}
